@@ -251,6 +251,40 @@ def oracle(case):
     if nr > 1 and not np.all(np.diff(yv) < 0):
         raise Violation("yvalues not decreasing (rows run from the top)")
 
+    # a grid obtained by clipping (whole grid, bottom rows, top rows, a
+    # block) is a grid like any other: same consistency between its cell
+    # numbers, coordinates and xvalues / yvalues
+    k_ = (case["cells"][len(case["cells"]) // 2] if case["cells"] else 0)
+    ra, ca_ = divmod(k_ % n, nc)
+    for (r0, r1, c0, c1) in {(0, nr - 1, 0, nc - 1), (ra, nr - 1, 0, ca_),
+                             (0, ra, ca_, nc - 1), (ra, ra, ca_, ca_)}:
+        ctr = g.cell2coord(np.array([r1 * nc + c0, r0 * nc + c1]))
+        gc = g.clip(ctr[0, 0], ctr[0, 1], ctr[1, 0], ctr[1, 1])
+        if (gc.nrows, gc.ncols) != (r1 - r0 + 1, c1 - c0 + 1):
+            continue        # (corner moved by rounding: C13 judges clips)
+        n2 = gc.nrows * gc.ncols
+        xv2, yv2 = gc.xvalues, gc.yvalues
+        cc = gc.cell2coord(np.arange(n2))
+        if len(xv2) != gc.ncols or len(yv2) != gc.nrows or \
+                not np.array_equal(xv2, cc[:gc.ncols, 0]) or \
+                not np.array_equal(yv2, cc[::gc.ncols, 1]):
+            raise Violation(
+                f"clipped grid (rows {r0}..{r1}, cols {c0}..{c1} of a "
+                f"{nr}x{nc} grid): xvalues / yvalues have {len(xv2)} / "
+                f"{len(yv2)} values for {gc.ncols} columns / {gc.nrows} "
+                f"rows or differ from its cell centres")
+        back = gc.coord2cell(cc)
+        if not np.array_equal(back, np.arange(n2)):
+            raise Violation("clipped grid: coord2cell(cell2coord(c)) != c")
+        # centres coincide with the parent's
+        pc = g.coord2cell(cc)
+        exp_pc = ((r0 + np.arange(n2) // gc.ncols) * nc + c0
+                  + np.arange(n2) % gc.ncols)
+        if not np.array_equal(pc, exp_pc):
+            raise Violation("clipped grid: its cell centres do not fall in "
+                            "the parent cells it was cut from")
+    labels.append("clipped-grids")
+
     # inside points
     pts, expc = [], []
     for c, u, v in case["inside"]:
